@@ -83,6 +83,15 @@ def cases(tier, rng):
                        ("nbo", ["t", "u"], ("seq", [("gate", "nfl", [("id", "u")]), ("gate", "H", [("id", "t")]), ("gate", "nfl", [("id", "t")])]))]
         p["body"] = [("gate", "prepare_all", []), ("gate", "nbo", [("q", "q", a), ("q", "q", b)]), ("gate", "measure_all", [])]
         out.insert(0, (p, "after-nested-call", "t"))
+    # a let used inside an INNER macro keeps denoting the let when the macro is called from an outer macro whose
+    # parameter happens to have the let's name (the caller's bindings must not leak into the callee's body)
+    for arg in (0, 2, 3):
+        p = dict(hdr)
+        p["macros"] = [("lin", ["x"], ("seq", [("gate", "X", [("q", "q", "k")]), ("gate", "H", [("id", "x")]), ("gate", "Rx", [("q", "a", "k"), ("id", "ang")])])),
+                       ("lou", ["k"], ("seq", [("gate", "lin", [("q", "q", "k")])])),
+                       ("lo2", ["ang", "k"], ("seq", [("gate", "lin", [("q", "q", "k")]), ("gate", "Rx", [("q", "q", 0), ("id", "ang")])]))]
+        p["body"] = [("gate", "prepare_all", []), ("gate", "lou", [("num", arg)]), ("gate", "lo2", [("num", 1.5), ("num", arg)]), ("gate", "measure_all", [])]
+        out.insert(0, (p, "let-in-callee", "k"))
     for p, use, pname in out:
         text = ref.to_text(p)
         yield text, {"prog": p, "text": text}, pname != "z"
